@@ -107,6 +107,16 @@ CHECKS = {
             'ranges included) is evaluated on both classes and compared. Cyclic workbooks (10 back-edge kinds x lengths 1-5 x '
             'entry inside/outside/whole file) must end in E2PyclParserException. Held on the graphs observed.',
             'Trusted: whole-file translation as the value reference; vf/xlref reference reader for the closure.'),
+    'C18': ('runtime monitoring: hooked state assertion on Excel.parse (grid, titles, sizes) + boundary observation of every '
+            'planted constant vs the generator\'s cell map cross-read by openpyxl\'s regular loader',
+            'Generated sparse workbooks (1-12 worksheets in random order, chart sheets between them, empty sheets, blocks away '
+            'from A1, scatter, ragged rows, gaps, single far cells up to row 1200 / column AAA) holding unique constants of every '
+            'stored type are translated; a hook on Excel.parse compares the grid, title map and sizes the translator receives '
+            'with the stored cells, and every planted constant (value and type), sampled blanks, get_titles / get_sheets_size / '
+            'get_sheet shape and probe formulas reading constants on other sheets are compared through the Executor. '
+            'Held on the workbooks observed.',
+            'Trusted: openpyxl as writer and (regular loader) as independent reader. time/timedelta cells recorded, not judged. '
+            'Workbooks written by other producers (missing r attributes, inline strings) are not generated.'),
 }
 
 LEVELS = {}
